@@ -135,6 +135,15 @@ pub fn take() -> World {
     WORLD.with(|w| std::mem::replace(&mut *w.borrow_mut(), World::new()))
 }
 
+/// Non-panicking access for the panic hook.
+pub fn try_with(f: impl FnOnce(&mut World)) {
+    WORLD.with(|w| {
+        if let Ok(mut g) = w.try_borrow_mut() {
+            f(&mut g)
+        }
+    })
+}
+
 pub fn is_active() -> bool {
     WORLD.with(|w| w.try_borrow().map(|w| w.active).unwrap_or(true))
 }
